@@ -157,3 +157,125 @@ Theorem C11_graph_consistent :
                         In f (pq_objs (lpq (getl s l))))).
 Proof. exact graph_consistent_full. Qed.
 Print Assumptions C11_graph_consistent.
+
+(* ------------------------------------------------------------------------------------------
+   Appended: the hypothesis [ranked] discharged on the property's OWN domain - programs whose
+   tasks acquire the PriorityLocks IN A FIXED ORDER (Sched/OrderInv.v, OrderPass.v, OrderThms.v,
+   OrderExample.v).
+
+   Side condition [run_ord s0 acts], checked along the run like [run_ok] / [run_ne]
+   (Sched/OrderPass.v mirrors exec / resume_stack / step_task / run_one):
+     whenever a task t starts PriorityLock.acquire() on lock l - [lib_call t (OAcquire l)], or
+     the re-acquisition of a condition's lock when a frame of wait() is resumed - then
+       holds_below s t l :=  lkind_ (getl s l) = LPrio ->
+                             forall l0, In l0 (tholding (gett s t)) -> l0 < l,
+     i.e. the locks in its _holding_locks all have a smaller index.  (Programs built from nested
+     sections `await l.acquire(); try: ... finally: l.release()` over an increasing sequence of
+     lock indices - harness/props/c11.py: sect / nest - satisfy it; shown for instances by
+     computation, [C11_ordered_example]; a syntactic proof is not mechanised.)
+   [reachable_ord s]: s is reached from an initial state (any loop kind, lock/condition/event
+   tables) by an action list satisfying run_ok, run_ne and run_ord.
+   [ordf s] is the invariant that the pass maintains:
+     a task suspended inside acquire() of lock l' holds only locks with index < l'. *)
+From Asynkit Require Import Sched.LockProofs Sched.OrderInv Sched.OrderPass Sched.OrderThms
+  Sched.OrderExample.
+
+(* The invariant, for every run (statement fully unfolded), in three readings: by frames, by
+   the waiter tables, and for the holder of a lock: a PriorityTask that holds l and is itself
+   queued is queued on a lock of LARGER index (so there is no waits-for cycle through l). *)
+Theorem C11_fixed_order_invariant :
+  forall prio_loop factor draws lks cds nev acts,
+    let s0 := init_st prio_loop factor draws lks cds nev in
+    run_ok s0 acts -> run_ne s0 acts -> run_ord s0 acts ->
+    let s := fold_left do_action acts s0 in
+    (forall u l' f had l, In (InAcquireP l' f had) (tframes s u) ->
+                          In l (tholding (gett s u)) -> l < l') /\
+    (forall l' f u l, In (f, u) (lwt (getl s l')) -> In l (tholding (gett s u)) -> l < l') /\
+    (forall l o l0 f, lowner (getl s l) = Some o -> is_prio_task s o = true ->
+                      In (f, o) (lwt (getl s l0)) -> l < l0).
+Proof.
+  intros p fa dr lks cds nev acts s0 Hok Hne Ho s.
+  assert (R : reachable_ord s) by (exists p, fa, dr, lks, cds, nev, acts; auto).
+  pose proof (reachable_inv s (reachable_ord_reachable s R)) as I.
+  pose proof (reachable_ne_WInv s (reachable_ord_ne s R)) as W.
+  pose proof (reachable_ord_ordf s R) as O.
+  split; [exact O|]. split.
+  - intros l' f u l. now apply queued_holds_below.
+  - intros l o l0 f. now apply holder_waits_larger.
+Qed.
+Print Assumptions C11_fixed_order_invariant.
+
+(* Every state of such a run has an acyclic wait-for graph whose chains fit the recursion
+   budget of effective_priority(): the rank of a task is (index of the lock it waits for) + 1,
+   |locks| + 1 for a PriorityTask that does not wait, 0 for a plain task. *)
+Theorem C11_ranked_reachable :
+  forall s, reachable_ord s ->
+    exists rank : nat -> nat,
+      (forall w t, waits_on s w t -> rank w < rank t) /\
+      (forall t, rank t <= S (length (locks s))) /\ (forall t, rank t <= efuel s).
+Proof.
+  intros s R.
+  pose proof (reachable_inv s (reachable_ord_reachable s R)) as I.
+  pose proof (reachable_ne_WInv s (reachable_ord_ne s R)) as W.
+  pose proof (reachable_ord_ordf s R) as O.
+  exists (lrank s). split; [now apply lrank_dec|]. split; [apply lrank_bound|].
+  intros t. pose proof (lrank_bound s t). unfold efuel. lia.
+Qed.
+Print Assumptions C11_ranked_reachable.
+
+Theorem C11_ranked_reachable_ranked : forall s, reachable_ord s -> ranked s.
+Proof. exact ranked_reachable. Qed.
+Print Assumptions C11_ranked_reachable_ranked.
+
+(* The C11 theorems without the hypothesis [ranked]. *)
+Theorem C11_holder_at_least_as_urgent_reachable :
+  forall s l w h, reachable_ord s ->
+    In w (lock_waiter_tasks (getl s l)) -> lowner (getl s l) = Some h ->
+    is_prio_task s h = true ->
+    (effective_priority s h <= effective_priority s w)%Q /\
+    (forall x, waits_tr s h x -> (effective_priority s x <= effective_priority s w)%Q).
+Proof. exact holder_reach_ord. Qed.
+Print Assumptions C11_holder_at_least_as_urgent_reachable.
+
+Theorem C11_eprio_closed_form_reachable :
+  forall s t, reachable_ord s ->
+    (effective_priority s t <= own s t)%Q /\
+    (forall w, waits_tr s w t -> (effective_priority s t <= own s w)%Q) /\
+    (exists u, (u = t \/ waits_tr s u t) /\ effective_priority s t = own s u).
+Proof. exact closed_form_reach_ord. Qed.
+Print Assumptions C11_eprio_closed_form_reachable.
+
+Theorem C11_eprio_fixpoint_reachable :
+  forall s t, reachable_ord s ->
+    min_of (effective_priority s t) (own s t :: map (wprio s) (waiters_of s t)).
+Proof. exact fixpoint_reach_ord. Qed.
+Print Assumptions C11_eprio_fixpoint_reachable.
+
+(* The fuel fact: on this domain |locks| + 1 levels of recursion already give the value of
+   effective_priority() (whose budget is |tasks| + |locks| + 1), and so does any larger budget. *)
+Theorem C11_fuel_suffices_reachable :
+  forall s fuel t, reachable_ord s -> S (length (locks s)) <= fuel ->
+    eprio fuel s t = effective_priority s t.
+Proof. exact fuel_reach_ord. Qed.
+Print Assumptions C11_fuel_suffices_reachable.
+
+(* Non-vacuity: three PriorityTasks, two locks, nested sections (C = task 0, priority 7, holds
+   lock 1; A = task 1, priority 4, holds lock 0 and is queued on lock 1 inside that section;
+   B = task 2, priority -2, arrives last and is queued on lock 0: chain B -> A -> C).  The run
+   satisfies run_ok, run_ne, run_ord to its end; in the state [est] all three effective
+   priorities are -2 and A's entry in lock 1 has been re-keyed to -2. *)
+Theorem C11_ordered_example :
+  run_ok (init_st false 0%Q [] [LPrio; LPrio] [] 0) eall /\
+  run_ne (init_st false 0%Q [] [LPrio; LPrio] [] 0) eall /\
+  run_ord (init_st false 0%Q [] [LPrio; LPrio] [] 0) eall /\
+  reachable_ord est /\ ranked est /\
+  tholding (gett est 1) = [0] /\ lwt (getl est 1) = [(2, 1)] /\ lowner (getl est 1) = Some 0 /\
+  lwt (getl est 0) = [(4, 2)] /\ lowner (getl est 0) = Some 1 /\
+  map (fun t => Qred (effective_priority est t)) [0; 1; 2] = [(-2)%Q; (-2)%Q; (-2)%Q] /\
+  arr (lpq (getl est 1)) = [mkE (-2)%Q 0 2].
+Proof.
+  destruct est_facts as (A & B & C & D & E & F & G & _).
+  exact (conj erun_ok (conj erun_ne (conj erun_ord (conj est_reachable_ord (conj est_ranked
+         (conj A (conj B (conj C (conj D (conj E (conj F G))))))))))).
+Qed.
+Print Assumptions C11_ordered_example.
